@@ -1,5 +1,9 @@
-import GrinVerif.Lemmas.ChainBasic
-/-! # C03 — head is the most-work validated chain (theorems on `Model/Chain.lean`) -/
+import GrinVerif.Lemmas.ChainOrder
+/-! # C03 — head is the most-work validated chain, whatever the arrival order
+(theorems on `Model/Chain.lean`; definitions used in the statements: `Event`, `run`, `Registered`
+in `Lemmas/ChainRun.lean`; `HeadMax`, `StoredClosed`, `HeadStep`, `PassedCheck` in
+`Lemmas/ChainInv.lean`; `VOP` (valid on path), `HdrOk`, `Fresh` in `Lemmas/ChainValid.lean` /
+`Lemmas/ChainStep.lean`; `ParentsFirst`, `blockIds` in `Lemmas/ChainOrder.lean`) -/
 namespace GV.Props.C03
 open GV GV.Chain
 
@@ -9,71 +13,159 @@ than the current head; otherwise the head does not move. -/
 theorem head_moves_only_up (p : Params) (n : Node) (b : Blk) :
     (processBlockSingle p n b).1.head = n.head ∨
     ((processBlockSingle p n b).1.head = b.id ∧ b.work > n.workOf n.head ∧
-      ∃ n1 par s', processHeader p n b = .ok n1 ∧ precheck n1 b = .go par ∧ checkBlock p n1 b par = .ok s') := by
-  rcases processBlockSingle_cases p n b with ⟨e, _, hh, _⟩ | ⟨n1, par, s', h1, h2, h3, h4⟩
+      ∃ par s', b.parent = some par ∧ checkBlock p n b par = .ok s') := by
+  rcases processBlockSingle_core p n b with ⟨hh, _, _⟩ | ⟨par, s', hpar, _, _, hc, _, hd⟩
   · left; exact hh
-  · have hf := processHeader_frame p n n1 b h1
-    rw [h4]
-    rcases storeBlock_head n1 b with ⟨a, _, _⟩ | ⟨a, _, c⟩
-    · left; rw [a, hf.1]
-    · right; exact ⟨a, by rw [← hf.1, ← show n1.workOf n1.head = n.workOf n1.head from by
-          simp [Node.workOf, Node.blk, hf.2.2.1]]; exact c, n1, par, s', h1, h2, h3⟩
+  · rcases hd with ⟨a, _, _⟩ | ⟨a, c, _⟩
+    · left; exact a
+    · right; exact ⟨a, c, par, s', hpar, hc⟩
 
-/-- the head has the greatest cumulative work among stored blocks -/
-def HeadMax (n : Node) : Prop := ∀ s ∈ n.stored, n.workOf s ≤ n.workOf n.head
+/-- (c) Validity is path-determined: the verdict of `checkBlock` on a block is a function of the
+output and block definitions only — not of the delivery history (headers known, blocks stored,
+head, orphan pool). -/
+theorem validity_path_determined (p : Params) (n m : Node) (ho : n.outs = m.outs)
+    (hb : n.blks = m.blks) (b : Blk) (par : Nat) : checkBlock p n b par = checkBlock p m b par :=
+  checkBlock_congr ho hb p b par
 
-/-- `HeadMax` is preserved by processing any block that is the registered definition of its id. -/
+/-- … in particular it is the same before and after any delivery history. -/
+theorem validity_history_independent (p : Params) (n : Node) (es : List Event) (b : Blk) (par : Nat) :
+    checkBlock p (run p n es) b par = checkBlock p n b par :=
+  checkBlock_congr (run_defs p n es).2 (run_defs p n es).1 p b par
+
+/-- Block and output definitions are never changed by a run. -/
+theorem run_keeps_definitions (p : Params) (n : Node) (es : List Event) :
+    (run p n es).blks = n.blks ∧ (run p n es).outs = n.outs := run_defs p n es
+
+/-- `HeadMax` (the head has the greatest cumulative work among stored blocks) is preserved by
+processing any block that is the registered definition of its id. -/
 theorem headMax_step (p : Params) (n : Node) (b : Blk) (hb : n.blk b.id = some b) (inv : HeadMax n) :
-    HeadMax (processBlockSingle p n b).1 := by
-  have wf : ∀ m : Node, m.blks = n.blks → ∀ x, m.workOf x = n.workOf x := by
-    intro m hm x; simp [Node.workOf, Node.blk, hm]
-  rcases processBlockSingle_cases p n b with ⟨e, _, hh, hs⟩ | ⟨n1, par, s', h1, _, _, h4⟩
-  · -- nothing stored, head unchanged; blks unchanged in every error branch
-    have hbl : (processBlockSingle p n b).1.blks = n.blks := by
-      unfold processBlockSingle
-      split
-      · rfl
-      · rename_i n1 hh1
-        have hf := processHeader_frame p n n1 b hh1
-        split
-        · exact hf.2.2.1
-        · simp [addOrphan, hf.2.2.1]
-        · split
-          · exact hf.2.2.1
-          · unfold storeBlock; split <;> simp [hf.2.2.1]
-    intro s hsm
-    rw [hs] at hsm
-    rw [wf _ hbl, wf _ hbl, hh]
-    exact inv s hsm
-  · have hf := processHeader_frame p n n1 b h1
-    rw [h4]
-    have hbl : (storeBlock n1 b).1.blks = n.blks := by
-      unfold storeBlock; split <;> simp [hf.2.2.1]
-    have hbw : n.workOf b.id = b.work := by simp [Node.workOf, hb]
-    intro s hsm
-    rw [storeBlock_stored, hf.2.1] at hsm
-    rw [wf _ hbl, wf _ hbl]
-    rcases storeBlock_head n1 b with ⟨a, _, c⟩ | ⟨a, _, c⟩
-    · rw [a, hf.1]
-      rcases List.mem_append.mp hsm with h | h
-      · exact inv s h
-      · have : s = b.id := by simpa using h
-        subst this
-        rw [hbw]
-        have : n1.workOf n1.head = n.workOf n.head := by rw [wf n1 hf.2.2.1, hf.1]
-        omega
-    · rw [a, hbw]
-      have e1 : n1.workOf n1.head = n.workOf n.head := by rw [wf n1 hf.2.2.1, hf.1]
-      rcases List.mem_append.mp hsm with h | h
-      · have := inv s h; omega
-      · have : s = b.id := by simpa using h
-        subst this; rw [hbw]; exact Nat.le_refl _
+    HeadMax (processBlockSingle p n b).1 := (preserved_headMax p).single n b hb inv
 
--- non-vacuity: a two-block tree, delivering the heavier child moves the head to it
-example : HeadMax ({ blks := [{ id := 0, parent := none, h := 0, work := 1, ver := 1, ts := 0, ins := [], outs := [], kers := [], tags := [] }] } : Node) := by
+/-- (a) `HeadMax` through the orphan re-check loop, a whole block delivery, a header delivery … -/
+theorem headMax_checkOrphans (p : Params) (fuel : Nat) (n : Node) (height : Nat) (inv : HeadMax n) :
+    HeadMax (checkOrphans p fuel n height) := checkOrphans_preserved (preserved_headMax p) fuel n height inv
+
+theorem headMax_deliverBlock (p : Params) (n : Node) (b : Blk) (hb : n.blk b.id = some b)
+    (inv : HeadMax n) : HeadMax (deliverBlock p n b).1 :=
+  deliverBlock_preserved (preserved_headMax p) n b hb inv
+
+theorem headMax_deliverHeader (p : Params) (n : Node) (b : Blk) (hb : n.blk b.id = some b)
+    (inv : HeadMax n) : HeadMax (deliverHeader p n b).1 :=
+  deliverHeader_preserved (preserved_headMax p) n b hb inv
+
+/-- … and through any finite delivery history: **at all times the head has the greatest
+cumulative work among the stored blocks** (`head_is_max`). -/
+theorem head_is_max (p : Params) (n : Node) (es : List Event) (hreg : Registered n es)
+    (inv : HeadMax n) : HeadMax (run p n es) := run_preserved (preserved_headMax p) n es hreg inv
+
+/-- (a) `StoredClosed` (genesis and head are stored; every stored block's parent is stored — so the
+stored blocks are exactly "accepted blocks whose ancestors are all accepted") through the orphan
+loop, block and header delivery, and any finite history. -/
+theorem storedClosed_checkOrphans (p : Params) (fuel : Nat) (n : Node) (height : Nat)
+    (inv : StoredClosed n) : StoredClosed (checkOrphans p fuel n height) :=
+  checkOrphans_preserved (preserved_storedClosed p) fuel n height inv
+
+theorem storedClosed_deliverBlock (p : Params) (n : Node) (b : Blk) (hb : n.blk b.id = some b)
+    (inv : StoredClosed n) : StoredClosed (deliverBlock p n b).1 :=
+  deliverBlock_preserved (preserved_storedClosed p) n b hb inv
+
+theorem storedClosed_deliverHeader (p : Params) (n : Node) (b : Blk) (hb : n.blk b.id = some b)
+    (inv : StoredClosed n) : StoredClosed (deliverHeader p n b).1 :=
+  deliverHeader_preserved (preserved_storedClosed p) n b hb inv
+
+theorem storedClosed_run (p : Params) (n : Node) (es : List Event) (hreg : Registered n es)
+    (inv : StoredClosed n) : StoredClosed (run p n es) :=
+  run_preserved (preserved_storedClosed p) n es hreg inv
+
+/-- Every stored block is valid on its own path: it and all its ancestors pass the header rules
+and `checkBlock` (from a fresh node, after any history). -/
+theorem stored_valid_on_path (p : Params) (n : Node) (es : List Event) (hf : Fresh n)
+    (hreg : Registered n es) : ∀ s ∈ (run p n es).stored, VOP p n s := by
   intro s hs
-  simp at hs
-  subst hs
-  exact Nat.le_refl _
+  have hi := run_preserved (preserved_inv p) n es hreg (hf.inv p)
+  exact (VOP_congr (run_defs p n es).2 (run_defs p n es).1 p s).mp (hi.2.valid s hs)
+
+/-- (b) **Along any run the work of the head never decreases, and if the head differs at the end
+it is a block with strictly more work that passed `checkBlock`** against the replayed state of its
+own parent. -/
+theorem head_work_monotone (p : Params) (n : Node) (es : List Event) (hreg : Registered n es) :
+    n.workOf n.head ≤ n.workOf (run p n es).head ∧
+    ((run p n es).head ≠ n.head →
+      n.workOf n.head < n.workOf (run p n es).head ∧ PassedCheck p n (run p n es).head) :=
+  (run_preserved (preserved_headStep p n) n es hreg ⟨⟨rfl, rfl⟩, HeadStep.refl p n⟩).2
+
+/-- … between any two points of a history (so *every* head change, not only the net one, is to a
+validated block with strictly more work): split the history anywhere. -/
+theorem head_work_monotone_between (p : Params) (n : Node) (es fs : List Event)
+    (hreg : Registered n (es ++ fs)) :
+    n.workOf (run p n es).head ≤ n.workOf (run p n (es ++ fs)).head ∧
+    ((run p n (es ++ fs)).head ≠ (run p n es).head →
+      n.workOf (run p n es).head < n.workOf (run p n (es ++ fs)).head ∧
+      PassedCheck p n (run p n (es ++ fs)).head) := by
+  have hd := run_defs p n es
+  have hreg2 : Registered (run p n es) fs := by
+    intro e he
+    rw [blk_congr hd.1]
+    exact hreg e (List.mem_append_right _ he)
+  have := head_work_monotone p (run p n es) fs hreg2
+  rw [← run_append] at this
+  simp only [workOf_congr hd.1, PassedCheck_congr hd.2 hd.1] at this
+  exact this
+
+/-- (d) **The store after a parents-first history** (every full block delivered after its parent;
+duplicates, headers and invalid blocks anywhere): exactly the genesis plus the delivered blocks
+that are valid on their own path. -/
+theorem stored_after_parentsFirst (p : Params) (n : Node) (es : List Event) (hf : Fresh n)
+    (hreg : Registered n es) (hpf : ParentsFirst [] es) (id : Nat) :
+    id ∈ (run p n es).stored ↔ VOP p n id ∧ (id = 0 ∨ id ∈ blockIds es) :=
+  GV.Chain.stored_after_parentsFirst p n es hf hreg hpf id
+
+/-- (d) … and the head is the unique maximum of work among those, when there is one. -/
+theorem head_after_parentsFirst (p : Params) (n : Node) (es : List Event) (hf : Fresh n)
+    (hreg : Registered n es) (hpf : ParentsFirst [] es) (w : Nat)
+    (hw : VOP p n w ∧ (w = 0 ∨ w ∈ blockIds es))
+    (hu : ∀ id, VOP p n id → (id = 0 ∨ id ∈ blockIds es) → id ≠ w → n.workOf id < n.workOf w) :
+    (run p n es).head = w :=
+  GV.Chain.head_after_parentsFirst p n es hf hreg hpf w hw hu
+
+/-- (d) **Order independence, parents-first**: two parents-first histories over the same set of
+block ids end with the same stored set; if the maximum of work among the valid-on-path delivered
+blocks is attained by a unique block `w`, both end on head `w` and report the same unspent set. -/
+theorem order_independent_parentsFirst (p : Params) (n : Node) (es₁ es₂ : List Event) (hf : Fresh n)
+    (hr₁ : Registered n es₁) (hr₂ : Registered n es₂)
+    (hp₁ : ParentsFirst [] es₁) (hp₂ : ParentsFirst [] es₂)
+    (hsame : ∀ id, id ∈ blockIds es₁ ↔ id ∈ blockIds es₂) :
+    (∀ id, id ∈ (run p n es₁).stored ↔ id ∈ (run p n es₂).stored) ∧
+    ∀ w, VOP p n w → (w = 0 ∨ w ∈ blockIds es₁) →
+      (∀ id, VOP p n id → (id = 0 ∨ id ∈ blockIds es₁) → id ≠ w → n.workOf id < n.workOf w) →
+      (run p n es₁).head = w ∧ (run p n es₂).head = w ∧
+      (run p n es₁).reportedUtxo p = (run p n es₂).reportedUtxo p := by
+  refine ⟨?_, ?_⟩
+  · intro id
+    rw [stored_after_parentsFirst p n es₁ hf hr₁ hp₁, stored_after_parentsFirst p n es₂ hf hr₂ hp₂,
+      hsame id]
+  · intro w hv hd hu
+    have h1 := head_after_parentsFirst p n es₁ hf hr₁ hp₁ w ⟨hv, hd⟩ hu
+    have h2 := head_after_parentsFirst p n es₂ hf hr₂ hp₂ w
+      ⟨hv, hd.imp id (hsame w).mp⟩ (fun id hv' hd' => hu id hv' (hd'.imp _root_.id (hsame id).mpr))
+    refine ⟨h1, h2, ?_⟩
+    exact reportedUtxo_congr ((run_defs p n es₁).1.trans (run_defs p n es₂).1.symm) (h1.trans h2.symm) p
+
+/-- (d) … **equal to delivering the winning chain alone**: any parents-first sub-history that
+still contains the winner `w` (in particular: exactly the blocks on the path from genesis to `w`,
+in path order) ends on the same head `w` and the same reported unspent set. -/
+theorem winning_chain_alone (p : Params) (n : Node) (es es₃ : List Event) (hf : Fresh n)
+    (hr : Registered n es) (hr₃ : Registered n es₃)
+    (hp : ParentsFirst [] es) (hp₃ : ParentsFirst [] es₃)
+    (hsub : ∀ id ∈ blockIds es₃, id ∈ blockIds es)
+    (w : Nat) (hv : VOP p n w) (hd₃ : w = 0 ∨ w ∈ blockIds es₃)
+    (hu : ∀ id, VOP p n id → (id = 0 ∨ id ∈ blockIds es) → id ≠ w → n.workOf id < n.workOf w) :
+    (run p n es₃).head = w ∧ (run p n es).head = w ∧
+    (run p n es₃).reportedUtxo p = (run p n es).reportedUtxo p := by
+  have h1 := head_after_parentsFirst p n es hf hr hp w ⟨hv, hd₃.imp id (hsub w)⟩ hu
+  have h3 := head_after_parentsFirst p n es₃ hf hr₃ hp₃ w ⟨hv, hd₃⟩
+    (fun id hv' hd' => hu id hv' (hd'.imp _root_.id (hsub id)))
+  exact ⟨h3, h1, reportedUtxo_congr ((run_defs p n es₃).1.trans (run_defs p n es).1.symm)
+    (h3.trans h1.symm) p⟩
 
 end GV.Props.C03
